@@ -327,6 +327,7 @@ class PortModel:
 
     def __init__(self, m, memory, inmode, inseed):
         self.is128 = m['machine'] != '48K'
+        self.machine = m['machine']
         self.memory = memory
         self.border = m['border']
         self.fe = m['fe']
@@ -378,7 +379,7 @@ def project_sim(sim, pm):
     else:
         mem = sim.memory
         banks = [_md5(mem[0x4000:0x8000]), _md5(mem[0x8000:0xC000]), _md5(mem[0xC000:0x10000])]
-    return {'regs': [int(x) for x in regs], 'iff': int(r[IFF]), 'im': int(r[IM]), 'border': pm.border, 'fe': pm.fe,
+    return {'machine': pm.machine, 'regs': [int(x) for x in regs], 'iff': int(r[IFF]), 'im': int(r[IM]), 'border': pm.border, 'fe': pm.fe,
             'o7ffd': pm.o7ffd if pm.is128 else 0, 'offfd': pm.fffd if pm.is128 else 0, 'ay': list(pm.ay) if pm.is128 else [0] * 16,
             'memptr': int(r[MEMPTR]), 'tpos': int(r[T]), 'banks': banks}
 
@@ -680,7 +681,7 @@ def rzxinfo_frames(path):
 # ------------------------------------------------------------------------------------------------
 # one campaign = n recordings, each played by the real tools in every way the property names
 # ------------------------------------------------------------------------------------------------
-STATE_KEYS = ('regs', 'iff', 'im', 'border', 'fe', 'o7ffd', 'offfd', 'ay', 'memptr', 'banks')
+STATE_KEYS = ('machine', 'regs', 'iff', 'im', 'border', 'fe', 'o7ffd', 'offfd', 'ay', 'memptr', 'banks')
 CONFIGS = (('c', 0), ('py', 0), ('c', 1), ('py', 1))          # (implementation, cmio)
 
 
